@@ -196,7 +196,7 @@ def _post(kind):
 
 
 def _mk(cls_name, kind):
-    return Unit("BoolOperation.handle_done[%s]" % cls_name, "futures.bool.BoolOperation.handle_done", ["C14", "C02", "C03", "C06", "C18"],
+    return Unit("BoolOperation.handle_done[%s]" % cls_name, "futures.bool.BoolOperation.handle_done", ["C14", "C02", "C03", "C06", "C18", "C01", "C04"],
                 _setup(cls_name), _post(kind), cfg=_cfg, self_cls=cls_name)
 
 
